@@ -11,7 +11,7 @@ fn render(items: &[Value], dir: &Path) -> String {
     let mut t = String::from("fn ff\no = trigger_error ${1}\nend\narr = array 1 2\n");
     for (k, it) in items.iter().enumerate() {
         match it["k"].as_str().unwrap() {
-            "eoe" => t.push_str(&format!("exit_on_error {}\n", it["on"])),
+            "eoe" => t.push_str(&format!("exit_on_error {}\n", it.get("sp").and_then(|x| x.as_str()).map(|x| x.to_string()).unwrap_or(it["on"].to_string()))),
             "obs" => t.push_str("e = get_last_error\nl = get_last_error_line\ns = get_last_error_source\nemit \"${e}\" \"${l}\" \"${s}\" \"${o}\"\n"),
             _ => {
                 let m = it["m"].as_str().unwrap();
@@ -116,7 +116,7 @@ pub fn record(args: &[String]) {
         for _ in 0..len {
             items.push(match r.below(10) {
                 0..=4 => { let ctx = *r.pick(&["top", "fn", "loop", "branch", "script", "incl"]); json!({"k": "fail", "ctx": ctx, "m": if ctx == "script" { "*" } else { *r.pick(&["m1", "m two"]) }}) }
-                5 => json!({"k": "eoe", "on": r.chance(1, 3)}),
+                5 => { let on = r.chance(1, 3); json!({"k": "eoe", "on": on, "sp": if on { *r.pick(&["true", "1", "yes"]) } else { *r.pick(&["false", "0", "no"]) }}) },
                 _ => json!({"k": "obs"}),
             });
         }
